@@ -14,7 +14,7 @@
     Correspondence (Model/Support.v): same error text and, when there is no error, the same
     supports within 1e-9.  *)
 From Coq Require Import String ZArith QArith Qabs Bool Arith List.
-From GT Require Import Base.Sexp Base.UTree Base.Codec Spec.Obs Spec.Support Spec.SupportW Model.Support Model.SupportW Judge.Common.
+From GT Require Import Base.Sexp Base.UTree Base.Codec Spec.Obs Spec.Support Spec.SupportW Model.Support Model.SupportW Model.SupportFamily Judge.Common.
 Import ListNotations.
 Local Close Scope Q_scope.
 Local Open Scope string_scope.
@@ -295,22 +295,8 @@ Definition judge_chain (c o : sexp) : verdict :=
     above H, TopoDepth and MinTransferDist with absent = false / true on the trees with the m of
     the case.  The judge does not rebuild trees of that size: it evaluates the definition
     ([delta]) and the model on the member of the family with m = 12, g = 4.  For these eleven
-    branches neither the light side nor the transfer index depends on m >= 8, g >= 2: the light
-    side lies within {a..f}; a bootstrap branch inside H is at distance > p - 1; the branches H
-    and (H,(c,e)) are reached through their complements, which lie within {a..f}.  (A closed
-    form for one family: a test, not a theorem.) *)
-Definition ftip (n : string) : utree := UNode n [] [None].
-Definition fnode (l : list utree) : utree := UNode "" [] (None :: map (fun c => Some (e0, c)) l).
-Definition froot (l : list utree) : utree := UNode "" [] (map (fun c => Some (e0, c)) l).
-Definition fam_H : utree :=
-  fnode [fnode [ftip "h00"; ftip "h01"; ftip "h02"; ftip "h03"];
-         fnode [ftip "h04"; ftip "h05"; ftip "h06"; ftip "h07"];
-         fnode [ftip "h08"; ftip "h09"; ftip "h10"; ftip "h11"]].
-Definition fam_ref : utree :=
-  froot [fnode [fnode [ftip "a"; ftip "b"]; fnode [ftip "c"; ftip "d"]]; fnode [ftip "e"; ftip "f"]; fam_H].
-Definition fam_boot : utree :=
-  froot [fnode [fam_H; fnode [ftip "c"; ftip "e"]]; fnode [ftip "a"; ftip "f"]; fnode [ftip "b"; ftip "d"]].
-
+    branches neither the light side nor the transfer index depends on H, for any common clade H on
+    at least 8 taxa: Proofs/SupportFamily.v [family_spec], [family_model], [family_model_absent]. *)
 Definition dec_ztriple (s : sexp) : option (Z * Z * Z) :=
   match s with
   | SList [a; b; c] => x <- dec_Z a ;; y <- dec_Z b ;; z <- dec_Z c ;; Some (x, y, z)
